@@ -22,49 +22,75 @@ func rulesC07(c *Ctx) {
 		c.Bad("anchor", "fscache.Cache", 0, "anchor not found; cannot certify")
 		return
 	}
-	const remote = "fscache.Cache.remoteFS"
-	const buffer = "fscache.Cache.bufferFS"
+	roles := discoverCacheRoles(c)
+	if roles == nil || roles.remote == "" || roles.buffer == "" || roles.remote == roles.buffer {
+		c.Bad("anchor", "fscache.Cache roles", 0, "cannot discover the cache's remote and buffer filespace; cannot certify")
+		return
+	}
+	remote, buffer := roles.remote, roles.buffer
 	methods := c.P.MethodsOf(cacheT, fiface)
-	srcFS := c.P.Func(cachePkg, "Cache", "srcFS")
+	// the read-source selector: the unexported method of Cache that hands out a filespace
+	var srcFS *ssa.Function
+	for _, f := range c.P.PkgFuncs(cachePkg) {
+		if f.Signature.Recv() == nil || f.Parent() != nil || f.Object() == nil || f.Object().Exported() {
+			continue
+		}
+		res := f.Signature.Results()
+		for i := 0; i < res.Len(); i++ {
+			if n, ok := res.At(i).Type().(*types.Named); ok && n.Obj().Name() == "Filespace" && n.Obj().Pkg().Path() == modPath+"/filesystem" {
+				srcFS = f
+			}
+		}
+	}
 
 	// ---- R1 buffer first ----------------------------------------------------------------
 	if srcFS == nil {
-		c.Bad("R1", "fscache.(*Cache).srcFS", 0, "anchor not found")
+		c.Bad("R1", "read-source selector of fscache.Cache", 0, "no unexported method of Cache hands out the filespace to read from; cannot certify the buffer-first rule")
 	} else {
 		facts := factsFor(srcFS)
 		ok := false
-		why := "srcFS does not choose between buffer and remote on a buffer-presence test"
+		why := "the read-source selector does not choose between buffer and remote on a buffer-presence test"
+		presence := func(fs factSet) (has, known bool) {
+			for k := range fs {
+				if call, isCall := k.v.(*ssa.Call); isCall && call.Call.Method != nil && call.Call.Method.Name() == "IsExist" && fromField(call.Call.Value, buffer) {
+					return k.pol, true
+				}
+			}
+			return false, false
+		}
+		okAll := true
+		sawR, sawB := false, false
+		judge := func(v ssa.Value, fs factSet) {
+			has, known := presence(fs)
+			switch {
+			case fromField(v, remote) && !fromField(v, buffer):
+				sawR = true
+				if !known || has {
+					okAll, why = false, "the remote is chosen without the buffer having been found not to hold the path"
+				}
+			case fromField(v, buffer) && !fromField(v, remote):
+				sawB = true
+				if !known || !has {
+					okAll, why = false, "the buffer is chosen without the presence test"
+				}
+			}
+		}
 		for _, r := range returnsOf(srcFS) {
-			p, isPhi := resolve(r.Results[0]).(*ssa.Phi)
-			if !isPhi {
-				continue
-			}
-			okAll := true
-			sawR, sawB := false, false
-			for i, e := range p.Edges {
-				fs := factsOnEdge(facts, p.Block().Preds[i], p.Block())
-				has, known := false, false
-				for k := range fs {
-					if call, isCall := k.v.(*ssa.Call); isCall && call.Call.Method != nil && call.Call.Method.Name() == "IsExist" && fromField(call.Call.Value, buffer) {
-						has, known = k.pol, true
-					}
+			for _, res := range r.Results {
+				if _, isIface := res.Type().Underlying().(*types.Interface); !isIface {
+					continue
 				}
-				switch {
-				case fromField(e, remote):
-					sawR = true
-					if !known || has {
-						okAll, why = false, "the remote is chosen without the buffer having been found not to hold the path"
+				if p, isPhi := resolve(res).(*ssa.Phi); isPhi {
+					for i, e := range p.Edges {
+						judge(e, factsOnEdge(facts, p.Block().Preds[i], p.Block()))
 					}
-				case fromField(e, buffer):
-					sawB = true
-					if !known || !has {
-						okAll, why = false, "the buffer is chosen without the presence test"
-					}
+				} else {
+					judge(res, facts.At(r.Block()))
 				}
 			}
-			if okAll && sawR && sawB {
-				ok = true
-			}
+		}
+		if okAll && sawR && sawB {
+			ok = true
 		}
 		c.Check(ok, "R1", "read source: buffer first", srcFS.Pos(), "remote only on the buffer-miss edge", why+" — written data is shadowed by the stale remote copy")
 	}
@@ -123,25 +149,37 @@ func rulesC07(c *Ctx) {
 			// duplicate scan covers the whole remote listing
 			remoteList := firstOr(resultN(rr, 0))
 			scanOK, names := false, 0
-			eachInstr(f, func(_ *ssa.BasicBlock, _ int, in ssa.Instruction) {
-				ia, isIA := in.(*ssa.IndexAddr)
-				if !isIA {
-					return
+			_ = remoteList
+			sawScan, badScan := false, false
+			for _, g := range reachableSamePkg(f, 2) {
+				gNames := 0
+				for _, ci := range Calls(g) {
+					if ci.Method != nil && ci.Method.Name() == "Name" {
+						gNames++
+					}
 				}
-				if resolve(ia.X) != remoteList && !hasOrigin(Origins(ia.X, FlowOpts{}), func(o Origin) bool { return o.Val == ssa.Value(rr) }) {
-					return
-				}
-				if ascendingIndex(ia.Index) {
-					scanOK = true
-				} else {
-					scanOK = false
-					why = "the duplicate scan over the remote listing does not start at its first element for every buffer entry"
-				}
-			})
-			for _, ci := range Calls(f) {
-				if ci.Method != nil && ci.Method.Name() == "Name" {
-					names++
-				}
+				names += gNames
+				eachInstr(g, func(b *ssa.BasicBlock, _ int, in ssa.Instruction) {
+					ia, isIA := in.(*ssa.IndexAddr)
+					if !isIA || !inLoop(g, b) {
+						return
+					}
+					if _, isSl := ia.X.Type().Underlying().(*types.Slice); !isSl {
+						return
+					}
+					// element loads of FileInfo listings only
+					if !strings.Contains(ia.X.Type().String(), "FileInfo") {
+						return
+					}
+					sawScan = true
+					if !ascendingIndex(ia.Index) {
+						badScan = true
+					}
+				})
+			}
+			scanOK = sawScan && !badScan
+			if badScan {
+				why = "a scan over a listing does not start at its first element for every entry it is compared with"
 			}
 			if !scanOK || names < 2 {
 				ok = false
@@ -154,7 +192,7 @@ func rulesC07(c *Ctx) {
 	}
 
 	// ---- R3 removes update buffer and journal ----------------------------------------------------------------
-	for mn, rec := range map[string]string{"Remove": "changeRemove", "RemoveAll": "changeRemoveAll"} {
+	for mn, rec := range map[string]string{"Remove": roles.journalOfClass("Remove"), "RemoveAll": roles.journalOfClass("RemoveAll")} {
 		f := methods[mn]
 		if f == nil {
 			c.Bad("R3", "fscache.(Cache)."+mn, 0, "anchor not found")
@@ -166,23 +204,46 @@ func rulesC07(c *Ctx) {
 			ci := callInfo(in, nil, 0)
 			return ci != nil && ci.Method != nil && (ci.Method.Name() == "IsExist" || ci.Method.Name() == mn) && fromField(ci.Recv(), buffer)
 		}
-		isRec := func(in ssa.Instruction) bool {
-			ci := callInfo(in, nil, 0)
-			return ci != nil && ci.Static != nil && ci.Static.Name() == rec
-		}
-		b1 := MustPass(f, nil, isTest)
-		b2 := MustPass(f, nil, isRec)
+		isRec := func(in ssa.Instruction) bool { return rec != "" && roles.isRecorderCall(in, rec) }
+		b1 := MustPass(f, nil, ipEvent(isTest, 2))
+		b2 := MustPass(f, nil, ipEvent(isRec, 2))
 		// the buffered node is removed on the presence edge
 		removed := false
+		presentAt := func(g *ssa.Function, b *ssa.BasicBlock) bool {
+			for k := range factsFor(g).At(b) {
+				if call, isCall := k.v.(*ssa.Call); isCall && k.pol && call.Call.Method != nil && call.Call.Method.Name() == "IsExist" {
+					return true
+				}
+			}
+			return false
+		}
 		for _, ci := range Calls(f) {
-			if ci.Method != nil && ci.Method.Name() == mn && fromField(ci.Recv(), buffer) {
-				for k := range facts.At(ci.Block) {
-					if call, isCall := k.v.(*ssa.Call); isCall && k.pol && call.Call.Method != nil && call.Call.Method.Name() == "IsExist" {
-						removed = true
+			if ci.Method != nil && ci.Method.Name() == mn && fromField(ci.Recv(), buffer) && presentAt(f, ci.Block) {
+				removed = true
+			}
+			// a helper that is handed the buffer's removal as a method value and calls it on the presence edge
+			if ci.Static != nil && ci.Static.Pkg == f.Pkg && ci.Kind == "call" {
+				for ai, a := range ci.Common.Args {
+					mc, isMC := a.(*ssa.MakeClosure)
+					if !isMC || len(mc.Bindings) != 1 || !fromField(mc.Bindings[0], buffer) {
+						continue
+					}
+					bf, isFn := mc.Fn.(*ssa.Function)
+					if !isFn || !strings.HasPrefix(bf.Name(), mn+"$bound") && bf.Name() != mn+"$bound" {
+						continue
+					}
+					if ai < len(ci.Static.Params) {
+						p := ci.Static.Params[ai]
+						for _, inner := range Calls(ci.Static) {
+							if inner.Common.Value == ssa.Value(p) && presentAt(ci.Static, inner.Block) {
+								removed = true
+							}
+						}
 					}
 				}
 			}
 		}
+		_ = facts
 		why := ""
 		if len(b1) > 0 {
 			why = "a return at " + c.pos(b1[0].Instr.Pos()) + " is reachable without looking at the buffer: a node re-created after an earlier removal stays visible"
@@ -191,10 +252,11 @@ func rulesC07(c *Ctx) {
 		} else if !removed {
 			why = "the buffered node is not removed on the presence edge"
 		}
-		c.Check(why == "", "R3", "fscache.(Cache)."+mn+" clears the buffer and journals", f.Pos(), "buffer test + buffer removal + "+rec+" on every path", why)
+		c.Check(why == "", "R3", "fscache.(Cache)."+mn+" clears the buffer and journals", f.Pos(), "buffer test + buffer removal + journal record on every path", why)
 	}
 
 	// ---- R4 remote fallbacks consult the removal journals -----------------------------------------------------------
+	jRemove, jRemoveAll := roles.journalOfClass("Remove"), roles.journalOfClass("RemoveAll")
 	readsJournal := func(f *ssa.Function) bool {
 		seen := map[*ssa.Function]bool{}
 		var rec func(g *ssa.Function, d int) bool
@@ -207,11 +269,11 @@ func rulesC07(c *Ctx) {
 			eachInstr(g, func(_ *ssa.BasicBlock, _ int, in ssa.Instruction) {
 				switch x := in.(type) {
 				case *ssa.Lookup:
-					if n, _ := fieldLoadName(x.X); n == "remove" || n == "removeAll" {
+					if n, _ := fieldLoadName(x.X); n != "" && (n == jRemove || n == jRemoveAll) {
 						found = true
 					}
 				case *ssa.Range:
-					if n, _ := fieldLoadName(x.X); n == "remove" || n == "removeAll" {
+					if n, _ := fieldLoadName(x.X); n != "" && (n == jRemove || n == jRemoveAll) {
 						found = true
 					}
 				}
@@ -261,6 +323,9 @@ func rulesC07(c *Ctx) {
 	for _, f := range cands {
 		n4++
 		con := fmt.Sprintf("fscache.(*Cache).%s", f.Name())
+		if f == srcFS {
+			con = "fscache.(*Cache).srcFS" // role name of the read-source selector (stable under renaming)
+		}
 		c.Check(readsJournal(f), "R4", con, f.Pos(), "the answer depends on the removal journals", "the method can answer from the remote without consulting the removal journals — after Remove(x) of a remote x, "+f.Name()+" still reports it until Commit")
 	}
 	c.Floor("R4", n4, 5)
